@@ -38,7 +38,7 @@ KNOWN_ENTRIES = {
                     "balanced, REL values as expected): the error path taken after the failed allocation does not release "
                     "what was built so far (e.g. auth.c _auth PLAIN branch: auth/authdata/authid; handler_add failing "
                     "silently so that the SCRAM context has no owner; stanza.c copy / attribute helpers)"},
-        witness="conn;allocfail <n>;<complete TLS+SCRAM+bind+SM session>;release for about 6% of the n"),
+        witness="conn;allocfail <n>;<complete TLS+SCRAM-SHA-1+bind+SM session>;release - 12 of the 565 n (e.g. n=218: live=1); thorough tier: 103 of 5078 injection points over 8 sessions"),
     KNOWN_OOM_CRASH: dict(
         property="C12", id=KNOWN_OOM_CRASH, status="known", always_report=False,
         what="NULL dereference / crash when an allocation fails during connection set-up/negotiation",
@@ -47,7 +47,7 @@ KNOWN_ENTRIES = {
                     "load or store of null pointer / SEGV on the zero page): results of xmpp_stanza_new, xmpp_stanza_copy, "
                     "hash_iter_new, strophe_strdup, xmpp_jid_*, strophe_alloc are used unchecked in auth.c, conn.c, "
                     "handler.c, stanza.c, parser_expat.c.  Heap-use-after-free, double free, aborts and hangs are NOT in the class"},
-        witness="conn;allocfail <n>;<complete TLS+SCRAM+bind+SM session>;release for about 8% of the n (more than 10 distinct sites)"),
+        witness="conn;allocfail <n>;<complete TLS+SCRAM-SHA-1+bind+SM session>;release - 113 of the 565 n (e.g. n=5: xmpp_stanza_set_name(NULL)); thorough tier: 847 of 5078 injection points over 8 sessions, 31 distinct crash sites"),
 }
 
 END_RE = re.compile(r"END live=(\d+) allocerr=(\d+) fds=(\d+)/(\d+)\s*$")
